@@ -45,6 +45,10 @@ func checkC02(w *World, r *Run) {
 			r.Bad(rulePromo, cons, s.Pos, "version listing ORDER BY not found (anchor lost)")
 			continue
 		}
+		if ob != listingOrder {
+			// the finding is identified by the deviating order itself: a different wrong order is a new violation
+			cons += " " + strings.ToLower(ob) + " ≠ listing order"
+		}
 		r.Check(ob == listingOrder, rulePromo, cons, s.Pos, "ORDER BY "+ob, "promotion orders by ["+ob+"] but versions are listed per key by ["+listingOrder+"]: after deleting the current version a version other than the first listed one can become current")
 	}
 
